@@ -190,9 +190,17 @@ func verifC19_SyncPrefix() {
 			verifCover("failed-pull")
 		}
 	}
-	// writes have stopped; one periodic pull happens
+	// writes have stopped; the server may still be down when the next periodic pull is due
+	// (that pull fails), then one periodic pull happens with the server back
 	verifQuiesce()
-	vTickCh <- time.Time{}
+	if verifBool("serverDownAtTheNextPeriodicPull") {
+		vPullFails = true
+		verifAdvance(int64(time.Second))
+		verifQuiesce()
+		vPullFails = false
+		verifCover("periodic-pull-failed")
+	}
+	verifAdvance(int64(time.Second)) // the pull interval passes: the syncer's timer is due
 	verifQuiesce()
 
 	// consume
@@ -304,13 +312,13 @@ func verifC19_SyncKey() {
 		case 0: // the syncer gets time to catch up
 			verifQuiesce()
 		case 1: // a periodic pull becomes due while events are still queued
-			vTickCh <- time.Time{}
+			verifAdvance(int64(time.Second)) // the pull interval passes: the syncer's timer is due
 			verifCover("tick-while-events-are-queued")
 		case 2: // the next write follows immediately
 		}
 	}
 	verifQuiesce()
-	vTickCh <- time.Time{}
+	verifAdvance(int64(time.Second)) // the pull interval passes: the syncer's timer is due
 	verifQuiesce()
 
 	var got [16]string
@@ -407,7 +415,7 @@ func verifC19_SlowConsumer() {
 		break
 	}
 	// a periodic pull, then drain again
-	vTickCh <- time.Time{}
+	verifAdvance(int64(time.Second)) // the pull interval passes: the syncer's timer is due
 	for {
 		verifQuiesce()
 		select {
